@@ -39,6 +39,7 @@ type scenario struct {
 	Pool      int      `json:"pool,omitempty"`       // > 0: the sessions run with a worker pool of that size (C05: a panic on a pool goroutine kills the process)
 	OnlyOps   []string `json:"only_ops,omitempty"`   // restrict the operator menu (quick-tier sizing of expensive scenarios)
 	StartOnly bool     `json:"start_only,omitempty"` // only the dealer-from-the-start deviations (special.go: startCases)
+	OnlyPaths []string `json:"only_paths,omitempty"` // restrict the field paths (quick-tier sizing of expensive scenarios)
 }
 
 // world is a scenario made concrete: the session description plus what the oracles need.
@@ -233,6 +234,9 @@ func scenarios(check string) []scenario {
 		// three parties and t = 1, because with t = n-1 a wrong degree cannot be observed
 		l = append(l, scenario{Name: "cmp-keygen/n3/t1/dealer-from-start", Proto: "cmp-keygen", N: 3, T: 1, Cost: 2, StartOnly: true})
 		l = append(l, scenario{Name: "cmp-refresh/n3/t1/dealer-from-start", Proto: "cmp-refresh", N: 3, T: 1, Cost: 2, StartOnly: true})
+		// the secret share a dealer hands out in the last message round of the CMP key generation, from a dealer that is
+		// NOT the last of the victim's peers (three parties; the full three-party catalogue is in the thorough tier)
+		l = append(l, scenario{Name: "cmp-keygen/n3/t1/share", Proto: "cmp-keygen", N: 3, T: 1, Cost: 2, OnlyPaths: []string{"/Share"}, OnlyOps: []string{"int-plus1", "sc-plus1", "int-flip-mid", "bit-flip"}})
 	}
 	add("cmp-sign", 2, 1, 2) // the largest quick-tier catalogue comes last: an internal deadline, if ever hit, cuts only it
 	if vkit.Thorough() {
@@ -243,6 +247,7 @@ func scenarios(check string) []scenario {
 		}
 		add("cmp-presign", 2, 1, 2)
 		add("cmp-keygen", 2, 1, 2)
+		add("cmp-keygen", 3, 1, 2)
 		add("cmp-refresh", 2, 1, 2)
 		add("cmp-presign-full", 2, 1, 2)
 		add("cmp-sign", 3, 1, 2)
